@@ -281,7 +281,9 @@ FLOW_TB = ["Float execution of the model (Lean runtime + libm) assumed IEEE bina
            "order laws of finite binary64 (strict weak order, x < nextUp x) assumed; proved for no concrete float type",
            "topology handed to the flow model is the real grid's neighbour lists (tied to the grid model in C07/C18)"]
 
-register("C01", lean_modules=['FsModel.PFlood', 'FsModel.Descent', 'FsModel.Tilt', 'FsProofs.Properties.C01', 'FsProofs.Properties.C01Multi'], theorems=['Fs.C01.C01_pflood_singleRouter', 'Fs.C01.C01_pflood_multiRouter', 'Fs.C01.pflood_terminates', 'Fs.pflood_parent', 'Fs.pflood_complete', 'Fs.step_wf', 'Fs.Tilt.tilt_descends'], gen=gen_resolved, oracles=[oracle.c01], cause=oracle.c01_cause,
+register("C01", lean_modules=['FsModel.PFlood', 'FsModel.Descent', 'FsModel.Tilt', 'FsProofs.Properties.C01', 'FsProofs.Properties.C01Multi', 'FsProofs.Properties.C01MstRouter', 'FsProofs.Properties.C01MstConnected', 'FsProofs.Properties.C01MstExample'],
+         theorems=['Fs.C01.C01_pflood_singleRouter', 'Fs.C01.C01_pflood_multiRouter', 'Fs.C01Mst.resolve_c01_singleRouter', 'Fs.C01Mst.resolve_c01_kruskal_sorted', 'Fs.C01Mst.resolve_c01_tree', 'Fs.C01Mst.resolve_c01_connected',
+                   'Fs.C01Mst.routeCarve_spec', 'Fs.C01Mst.routeBasic_spec', 'Fs.C01Mst.rerouted_forest', 'Fs.C01Mst.rerouted_base', 'Fs.C01Mst.orient_spec', 'Fs.C01Mst.orient_reached_iff', 'Fs.C01Mst.kruskal_keeps_virtual', 'Fs.C01.pflood_terminates', 'Fs.pflood_parent', 'Fs.pflood_complete', 'Fs.step_wf', 'Fs.Tilt.tilt_descends'], gen=gen_resolved, oracles=[oracle.c01], cause=oracle.c01_cause,
          sections={"elev", "update"} | GRAPH_SECTIONS, nontrivial=raised_or_rerouted, tags=tags_flow,
          rule="random grids (raster 3 connectivities/border mixes, profile, mesh) x elevation families (ties, plateaus, zero, subnormal, huge, nested cones) x masks x base-level sets x six resolver variants [+ multi router]; non-trivial = at least one node was raised by the resolver",
          trusted_base=FLOW_TB)
@@ -603,8 +605,8 @@ def _lvl(pid, level, text, technique=None, note=None):
 
 
 _lvl("C01", "proof",
-     "END-TO-END theorem on the executed composition priority flood + single-direction router (Fs.C01.C01_pflood_singleRouter, any grid size / topology handed over by the grid, any elevations, masks and base-level sets, sequential or multi-threaded router variant; assumptions: strict-weak-order laws of the comparison, x < nextUp x, slope towards a lower neighbour above -DBL_MAX, neighbour lists in range and symmetric, base-level list duplicate-free): (1) base-level and masked nodes are their own receiver, (2) every proper step goes to an unmasked neighbour with strictly lower RETURNED elevation, (3) every node connected through unmasked neighbours to an unmasked base level reaches a base-level node after finitely many receiver steps and stops there, (4) no cycle. It rests on pflood_terminates (potential-function proof that the flood empties both queues within its fuel n+1), pflood_parent / pflood_complete (flood invariants), C04.routed_row (router scan) and C06.singleRouter_graph. Also step_wf (descent => well-founded) and tilt_descends (strict descent after the spanning-tree tilt pass). C01_pflood_multiRouter: the same for flood + multiple-direction router (every proper receiver is an unmasked neighbour with strictly lower returned elevation; a node connected to a base level is never a pit and all its receivers stay connected; 'flows to' is well-founded, no cycle, every path has fewer than n steps; every maximal path from a connected node ends at a base level, and one exists). The spanning-tree re-routing (connect/Kruskal/Boruvka/orient/carve/basic) is modelled statement by statement and tied by correspondence + reachability oracle (its MST part: see C15).",
-     "Lean 4 end-to-end theorem on the executed flood+router (loop invariants, potential-function termination, composition) + bit-exact differential correspondence + reachability oracle")
+     "END-TO-END theorem on the executed composition priority flood + single-direction router (Fs.C01.C01_pflood_singleRouter, any grid size / topology handed over by the grid, any elevations, masks and base-level sets, sequential or multi-threaded router variant; assumptions: strict-weak-order laws of the comparison, x < nextUp x, slope towards a lower neighbour above -DBL_MAX, neighbour lists in range and symmetric, base-level list duplicate-free): (1) base-level and masked nodes are their own receiver, (2) every proper step goes to an unmasked neighbour with strictly lower RETURNED elevation, (3) every node connected through unmasked neighbours to an unmasked base level reaches a base-level node after finitely many receiver steps and stops there, (4) no cycle. It rests on pflood_terminates (potential-function proof that the flood empties both queues within its fuel n+1), pflood_parent / pflood_complete (flood invariants), C04.routed_row (router scan) and C06.singleRouter_graph. Also step_wf (descent => well-founded) and tilt_descends (strict descent after the spanning-tree tilt pass). C01_pflood_multiRouter: the same for flood + multiple-direction router (every proper receiver is an unmasked neighbour with strictly lower returned elevation; a node connected to a base level is never a pit and all its receivers stay connected; 'flows to' is well-founded, no cycle, every path has fewer than n steps; every maximal path from a connected node ends at a base level, and one exists). resolve_c01_singleRouter: the same for the executed SPANNING-TREE resolver (Fs.Mst.resolve with Kruskal, carve or basic) after the single router: base-level and masked nodes stay their own receiver; the re-routed receiver table is again a forest (so the rebuilt donors/orders are valid by C06); every proper step strictly decreases the RETURNED (tilted) elevation; carve never hangs; every unmasked node whose basin is reached from the root - in particular every node connected through unmasked neighbours to an unmasked base level (resolve_c01_connected) - ends at a base-level node. Built from routeCarve_spec (path reversal), routeBasic_spec, the fold over tree edges (rerouted_forest / rerouted_base), orient_spec + orient_reached_iff (the executed orientation returns an arborescence from the root: each reached basin is the head of exactly one edge, depths increase, reached = connected to the root in the tree), kruskal_keeps_virtual, connect_basins (C15) and tilt_descends; extra assumptions: elevations above -DBL_MAX (a real pass at -DBL_MAX would tie with the virtual edges - counterexample in C01MstExample), arrays fit in memory, the weight-sorted permutation check the harness performs. For Boruvka the same conclusions hold under the two tree facts the run-time certificate (C15) establishes per run (forest, virtual edges kept): resolve_c01_tree.",
+     "Lean 4 end-to-end theorems on the executed flood+router and spanning-tree resolver (loop invariants, potential-function termination, path-reversal / forest / arborescence proofs, composition) + bit-exact differential correspondence + reachability oracle")
 _lvl("C02", "proof",
      "Theorems about the executed priority flood Fs.Flow.pflood (any grid size, any elevations over a linear order with strictly increasing monotone nextUp): pflood_ge_input (never below the input), pflood_fixed (bit-identical at base-level and masked nodes), pflood_ge_spill (every closed node is reached from an unmasked base level by an unmasked-neighbour path whose input elevations never exceed its filled elevation: f >= spill level), pflood_le_spill (for every such path and every bound v on the input along it, f <= v raised by n+2 floating-point increments: f <= spill + (n+2) ulps). They are obtained from the invariant proofs on the ghost-instrumented loop (Fs.UB) through an erasure theorem (run_erase, ubInit_erase: forgetting the ghost counters turns each instrumented step into the executed step). 'closed' = reached by the flood; that all unmasked-connected nodes are closed when the loop exits by itself is pflood_complete. The spanning-tree variants (Kruskal/Boruvka x basic/carve) are modelled statement by statement, compared bit for bit and checked by the independent Bellman minimax oracle (two-sided bound, agreement of all variants) - not proved.",
      "Lean 4 loop-invariant proofs (ghost-instrumented flood + erasure to the executed definitions) + bit-exact correspondence + independent minimax-spill oracle")
